@@ -25,8 +25,12 @@ LEVEL_TEXT = ('static analysis: (D1) each function registered in tabio.READERS /
               'read_auto rewinds; (D4) every to_csv reached from tabio.write / write_dataframe passes a %.Ng float format with N>=6. (D2c) '
               'GenomicArray.__init__ interpreted on typed frames (chromosome parsed as str / int, start and end as int / float, 2 rows / 0 rows; '
               'numpy scalar class facts as the trusted base): the array always holds chromosome as str and start / end as integers; the sort '
-              'table includes inputs already in alphabetical chromosome order. Does not decide the chromosome order of arbitrary names beyond '
-              'those classes, regex coverage, or byte-identical rewrite.')
+              'table includes inputs already in alphabetical chromosome order. (D3c) sniff_region_format interpreted on literal files of every '
+              'claimed format as other tools write them (VCF with / without meta lines, GFF with pragma or after a comment, interval list with @ '
+              'header, text, tab, BED after track / browser / comment / blank lines) names that format; the text reader keeps a name with commas,'
+              ' dots and dashes whole; (CLI) `import-seg` applies no chromosome mapping unless -c is given and passes prefix / log10 switch / one'
+              ' output per sample. Does not decide the chromosome order of arbitrary names beyond those classes, regex coverage, or byte-'
+              'identical rewrite.')
 TECHNIQUE = ('abstract interpretation of reader/writer bodies with symbolic coordinates (offset dataflow to the sink column); dominance; '
              "registry agreement; typed-frame interpretation of the constructor's dtype coercion")
 
@@ -593,14 +597,41 @@ def d3_sniff(chk, prog):
     bad = sorted((names | keys) - set(readers))
     chk.decide(not bad, "sniff-registry", f"{sorted(names | keys)} all in READERS", "skgenome.tabio.sniff_region_format::names", fi.loc(),
                f"auto-detection can return {bad}, which tabio.read rejects as unknown format")
+    # read_auto, interpreted on a handle that remembers its position: the reader starts at the beginning again after the sniffing consumed lines
+    # (file names are re-opened by the reader; a blank file is read as BED3) -- this used to be a match on the order of the seek / sniff / return statements
     ra = prog.fn("skgenome.tabio.read_auto")
-    par = parents(ra.node)
-    seeks = [n for n in own_nodes(ra.node) if isinstance(n, ast.Call) and isinstance(n.func, ast.Attribute) and n.func.attr == "seek" and n.args and norm(n.args[0]) == "0"]
-    rets = [n for n in own_nodes(ra.node) if isinstance(n, ast.Return)]
-    sniffs = [n for n in own_nodes(ra.node) if isinstance(n, ast.Call) and norm(n.func) == "sniff_region_format"]
-    ok = bool(seeks) and bool(sniffs) and all(stmt_of(seeks[0], par).lineno < r.lineno for r in rets) and stmt_of(sniffs[0], par).lineno < stmt_of(seeks[0], par).lineno
-    chk.decide(ok, "sniff-registry", "read_auto: seek(0) between sniffing and reading", "skgenome.tabio.read_auto::seek", ra.loc(),
-               "a seekable input is not rewound after format sniffing: the first line(s) would be lost")
+    tbr = Table(chk, "sniff-registry", "read_auto on an open handle / a file name x detected format / blank file: the parser starts at position 0 with the detected format", ra.loc(), ra.qn)
+
+    class Handle:
+        def __init__(self):
+            self.pos, self.events = 0, []
+
+        def seek(self, where, *a):
+            self.events.append(("seek", where))
+            self.pos = where
+
+        def abs_hasattr(self, name):
+            return name in ("seek", "read", "name")
+    for kind, detected in itertools.product(("handle", "file name"), ("gff", None)):
+        W.reset()
+        h = Handle()
+        src = h if kind == "handle" else "regions.txt"
+        model = Model()
+        seen = {}
+
+        def sniff(it, f, h=h, detected=detected):
+            if f is h:
+                h.pos = 3                      # lines consumed while guessing
+            return detected
+        model.prims["skgenome.tabio.sniff_region_format"] = sniff
+        model.prims["skgenome.tabio.read"] = lambda it, f, fmt="tab", *a, seen=seen, h=h, **k: seen.update(read=(f, fmt, h.pos if f is h else 0)) or "TABLE"
+        it = Interp(prog, model)
+        out = tbr.guard(lambda: it.run(ra.qn, [src]), f"{kind} detected={detected}")
+        if out is None:
+            continue
+        rd = seen.get("read")
+        tbr.cell(out == "TABLE" and rd is not None and rd[0] is src and rd[1] == (detected or "bed3") and rd[2] == 0, dict(input=kind, detected=detected, read_call=(rd[1], rd[2]) if rd else None, handle_events=h.events))
+    tbr.done("after format sniffing the parser does not start at the beginning of the input (the first lines are lost), or is given another format than the one detected")
 
 
 def d3b_roundtrip_detection(chk, prog):
